@@ -8,19 +8,42 @@
 // code are unchanged and the model needs no new step.  An access without the lock becomes a scheduling point
 // followed by `K_FAULT <vector> 5`: the scheduler can then put another thread's operation into the window, and
 // the `unlocked_access` monitor reports the event itself.
+// Reads (begin/end/size/empty/[]) need the lock at least shared, modifications need it exclusively; the lock may
+// be any instrumented mutex type (the rule looks at its owner / sharers fields, not at its type).
 #pragma once
 #include "vstd.hpp"
 #include "vpay.hpp"
 
 namespace vs {
+namespace detail {
+    template<class M, class = void>
+    struct has_sharers: std::false_type {};
+    template<class M>
+    struct has_sharers<M, std::void_t<decltype(std::declval<const M&>().sharers)>>: std::true_type {};
+}  // namespace detail
 struct VecGuard {
-    const void* vec = nullptr;        // the guarded container
-    const vstd::mutex* mtx = nullptr;  // the mutex that must be held
+    const void* vec = nullptr;            // the guarded container
+    std::function<bool()> holds_excl;     // the current thread owns the lock exclusively
+    std::function<bool()> holds_shared;   // ... or at least shared (reads)
+    std::function<bool()> shared_only;    // holds it shared but not exclusively (shared lock types only)
     bool on = false;
-    void arm(const void* v, const vstd::mutex* m)
+    // any instrumented lock type: mutex / timed_mutex / recursive_(timed_)mutex (field owner) and
+    // shared_(timed_)mutex (fields owner, sharers)
+    template<class M>
+    void arm(const void* v, const M* m)
     {
         vec = v;
-        mtx = m;
+        holds_excl = [m] { return m->owner == Sched::self(); };
+        if constexpr (detail::has_sharers<M>::value) {
+            shared_only = [m] {
+                return m->owner != Sched::self() &&
+                    std::find(m->sharers.begin(), m->sharers.end(), Sched::self()) != m->sharers.end();
+            };
+            holds_shared = [this] { return holds_excl() || shared_only(); };
+        } else {
+            shared_only = [] { return false; };
+            holds_shared = holds_excl;
+        }
         on = true;
     }
     void disarm() { on = false; }
@@ -30,11 +53,20 @@ inline VecGuard& vec_guard()
     static VecGuard g;
     return g;
 }
-inline void vec_touch(const void* self)
+// write = the access modifies the container (needs the exclusive lock); reads need at least a shared lock
+inline void vec_touch(const void* self, bool write)
 {
     VecGuard& g = vec_guard();
-    if (!g.on || g.vec != self || !active()) return;
-    if (g.mtx != nullptr && g.mtx->owner == Sched::self()) return;
+    if (!g.on || !active()) return;
+    // a thread working on the container under a shared lock only runs concurrently with other such threads:
+    // every vector operation it performs (also on its local vectors, e.g. the copy into ecall that follows a
+    // use_count() test) is a scheduling point, logged as K_YIELD <vector>.  Never happens with an exclusive mutex.
+    if (g.shared_only()) {
+        S().visible(K_YIELD, self);
+        S().emit(K_YIELD, self, 0);
+    }
+    if (g.vec != self) return;
+    if (write ? g.holds_excl() : g.holds_shared()) return;
     S().visible(K_FAULT, self);
     fault(self, 5);
 }
@@ -55,74 +87,86 @@ class vector: public ::std::vector<T, A> {
     using typename B::const_reference;
     iterator begin() noexcept
     {
-        vs::vec_touch(this);
+        vs::vec_touch(this, false);
         return B::begin();
     }
     const_iterator begin() const noexcept
     {
-        vs::vec_touch(this);
+        vs::vec_touch(this, false);
         return B::begin();
     }
     iterator end() noexcept
     {
-        vs::vec_touch(this);
+        vs::vec_touch(this, false);
         return B::end();
     }
     const_iterator end() const noexcept
     {
-        vs::vec_touch(this);
+        vs::vec_touch(this, false);
         return B::end();
     }
     size_type size() const noexcept
     {
-        vs::vec_touch(this);
+        vs::vec_touch(this, false);
         return B::size();
     }
     bool empty() const noexcept
     {
-        vs::vec_touch(this);
+        vs::vec_touch(this, false);
         return B::empty();
     }
     reference operator[](size_type i)
     {
-        vs::vec_touch(this);
+        vs::vec_touch(this, false);
         return B::operator[](i);
     }
     const_reference operator[](size_type i) const
     {
-        vs::vec_touch(this);
+        vs::vec_touch(this, false);
         return B::operator[](i);
     }
     void push_back(const T& x)
     {
-        vs::vec_touch(this);
+        vs::vec_touch(this, true);
         B::push_back(x);
     }
     void push_back(T&& x)
     {
-        vs::vec_touch(this);
+        vs::vec_touch(this, true);
         B::push_back(::std::move(x));
     }
     template<class... Args>
     decltype(auto) emplace_back(Args&&... args)
     {
-        vs::vec_touch(this);
+        vs::vec_touch(this, true);
         return B::emplace_back(::std::forward<Args>(args)...);
     }
     iterator erase(const_iterator p)
     {
-        vs::vec_touch(this);
+        vs::vec_touch(this, true);
         return B::erase(p);
     }
     iterator erase(const_iterator a, const_iterator b)
     {
-        vs::vec_touch(this);
+        vs::vec_touch(this, true);
         return B::erase(a, b);
     }
     void clear() noexcept
     {
-        vs::vec_touch(this);
+        vs::vec_touch(this, true);
         B::clear();
+    }
+    template<class... Args>
+    iterator insert(Args&&... args)
+    {
+        vs::vec_touch(this, true);
+        return B::insert(::std::forward<Args>(args)...);
+    }
+    void swap(vector& o) noexcept
+    {
+        vs::vec_touch(this, true);
+        vs::vec_touch(&o, true);
+        B::swap(o);
     }
     // harness-only view without any check
     const B& vs_raw() const { return *this; }
